@@ -369,6 +369,13 @@ func (s *Shard) SearchPoints(searchRequest models.SearchRequest) ([]models.Searc
 		// Backfill point UUID and data
 		for _, r := range results {
 			sp, err := pointstore.GetPointByNodeId(bPoints, r.NodeId, len(searchRequest.Select) > 0)
+			if err == pointstore.ErrPointDoesNotExist {
+				// The shared index cache can be ahead of this transaction's
+				// snapshot when a write commits while we search, the point
+				// does not exist yet as far as this search is concerned.
+				rSet.Remove(r.NodeId)
+				continue
+			}
 			if err != nil {
 				return fmt.Errorf("could not get point by node id %d: %w", r.NodeId, err)
 			}
@@ -381,6 +388,9 @@ func (s *Shard) SearchPoints(searchRequest models.SearchRequest) ([]models.Searc
 		for it.HasNext() {
 			nodeId := it.Next()
 			sp, err := pointstore.GetPointByNodeId(bPoints, nodeId, len(searchRequest.Select) > 0)
+			if err == pointstore.ErrPointDoesNotExist {
+				continue
+			}
 			if err != nil {
 				return fmt.Errorf("could not get point by node id %d: %w", nodeId, err)
 			}
